@@ -17,6 +17,29 @@ def cmpop(name, cls, sym):
 OPS = [op('op_eq', 'eq_operator', 'vx_result == ((vx_cmp == 0) ? R_TRUE : R_FALSE)', '== is value equality for values of any type'),
        op('op_ne', 'ne_operator', 'vx_result == ((vx_cmp != 0) ? R_TRUE : R_FALSE)', '!= is the negation of =='),
        cmpop('op_lt', 'lt_operator', '<'), cmpop('op_lte', 'lte_operator', '<='), cmpop('op_gt', 'gt_operator', '>'), cmpop('op_gte', 'gte_operator', '>=')]
+# ---- arithmetic of filter expressions (a jsoncons extension): for every pair of operands the evaluation is free of undefined behaviour - no division by zero, no
+# signed overflow (F49: `$[?(@.a / 0 > 0)]` died with SIGFPE) - and integer results are the exact result where it fits
+AR_RULES = [
+    (r'lhs\.is_number\(\) && rhs\.is_number\(\)', '(vx_lk == VK_NUMBER && vx_rk == VK_NUMBER)', 0, 1), (r'lhs\.is_int64\(\)', 'vx_l_is_i', 0, 1), (r'rhs\.is_int64\(\)', 'vx_r_is_i', 0, 1), (r'lhs\.is_uint64\(\)', 'vx_l_is_u', 0, 1), (r'rhs\.is_uint64\(\)', 'vx_r_is_u', 0, 1),
+    (r'lhs\.template as<int64_t>\(\)', 'vx_li', 0, 2), (r'rhs\.template as<int64_t>\(\)', 'vx_ri', 0, 4), (r'lhs\.template as<uint64_t>\(\)', 'vx_lu', 0, 2), (r'rhs\.template as<uint64_t>\(\)', 'vx_ru', 0, 3),
+    (r'val\.is_int64\(\)', 'vx_l_is_i', 0, 1), (r'val\.is_double\(\)', 'vx_l_is_d', 0, 1), (r'val\.template as<int64_t>\(\)', 'vx_li', 0, 1), (r'val\.as_double\(\)', 'vx_ld', 0, 1),
+    (r'lhs\.as_double\(\)', 'vx_ld', 0, 1), (r'rhs\.as_double\(\)', 'vx_rd', 0, 1), (r'\bfmod\(', 'vx_fmod(', 0, 1), (r'uint64_t\(0\)', '((uint64_t)0)', 0, 1),
+    (r'return Json::null\(\);', '{ vx_result = R_NULL; return; }', 1), (r'return Json\(([^;]*), semantic_tag::none\);', r'{ VX_RET(\1); return; }', 2, 3),
+]
+def arith(name, cls, unary, post, what):
+    anchor = r'Json evaluate\(const_reference val,\s*std::error_code&\) const override' if unary else A
+    base = 'unary_operator<Json>' if unary else 'binary_operator<Json>'
+    return FuncSpec(name, T, anchor, after=r'class %s final : public %s' % (cls, base), csig='void %s(void)' % name, rules=AR_RULES,
+                    contract=[('requires', 'vx_result == R_NONE && !(vx_l_is_i && vx_l_is_u) && !(vx_r_is_i && vx_r_is_u)'), ('assigns', 'vx_result, vx_res_i, vx_res_u, vx_res_d, vx_res_kind'), ('ensures', '[C05][C12] ' + what, post)])
+II = '(vx_lk == VK_NUMBER && vx_rk == VK_NUMBER && vx_l_is_i && vx_r_is_i)'
+ARITH = [
+    arith('op_plus', 'plus_operator', False, '%s ==> (vx_res_kind == RK_I && vx_res_i == (int64_t)((uint64_t)vx_li + (uint64_t)vx_ri))' % II, 'a + b of two signed integers is their sum (two\'s complement wrap-around beyond 64 bits), computed without signed overflow'),
+    arith('op_minus', 'minus_operator', False, '%s ==> (vx_res_kind == RK_I && vx_res_i == (int64_t)((uint64_t)vx_li - (uint64_t)vx_ri))' % II, 'a - b of two signed integers, computed without signed overflow'),
+    arith('op_mult', 'mult_operator', False, '%s ==> (vx_res_kind == RK_I)' % II, 'a * b of two signed integers is computed without signed overflow'),
+    arith('op_div', 'div_operator', False, '(%s && vx_ri != 0 && vx_ri != -1) ==> (vx_res_kind == RK_I && vx_res_i == vx_li / vx_ri)' % II, 'a / b: integer division only by a divisor that is neither 0 nor -1 (no division by zero, no INT64_MIN / -1); those cases are divided as floating-point numbers'),
+    arith('op_mod', 'modulus_operator', False, '(%s && vx_ri != 0 && vx_ri != -1) ==> (vx_res_kind == RK_I && vx_res_i == vx_li %% vx_ri)' % II, 'a % b: the same for the remainder'),
+    arith('op_neg', 'unary_minus_operator', True, 'vx_l_is_i ==> (vx_res_kind == RK_I && vx_res_i == (int64_t)((uint64_t)0 - (uint64_t)vx_li))', '-a of a signed integer is computed without signed overflow (the minimum has no negation)'),
+]
 SPECS = []
-GROUPS = {'ops': OPS}
-HARNESSES = [Harness(o.name, 'h_' + o.name, enforce=o.name, method='LF', props=['C12'], note='operands are abstract: their kinds and the sign of their comparison (basic_json::compare: unit cmp)') for o in OPS]
+GROUPS = {'ops': OPS, 'arith': ARITH}
+HARNESSES = [Harness(o.name, 'h_' + o.name, enforce=o.name, method='LF', props=['C05', 'C12'], flags=['--signed-overflow-check'], note='operands are abstract numbers of a storage kind (int64, uint64 or double) with arbitrary values; built-in checks: division by zero, signed overflow') for o in ARITH] + [Harness(o.name, 'h_' + o.name, enforce=o.name, method='LF', props=['C12'], note='operands are abstract: their kinds and the sign of their comparison (basic_json::compare: unit cmp)') for o in OPS]
